@@ -139,7 +139,73 @@ func c02Check(env *h.Env, c *histCase) error {
 }
 
 func TestC02(t *testing.T) {
-	h.Run(t, "C02", func(t *rapid.T) *histCase { return genHist(t, true) }, c02Check)
+	r := h.NewRunner("C02")
+	defer r.Finish(t)
+	h.RunWith(t, r, "", func(t *rapid.T) *histCase { return genHist(t, true) }, c02Check)
+	if t.Failed() {
+		return
+	}
+	t.Run("unpriv", func(t *testing.T) {
+		h.ScaleChecks(1, 25, func() { h.RunWith(t, r, "unpriv", genC01Unpriv, c02UnprivCheck) })
+	})
+}
+
+// sub-run "unpriv": both ends as uid 1000 (chrooted sub-process), a transfer
+// and then a re-sync of the unchanged source: nothing may be rewritten.
+func c02UnprivCheck(env *h.Env, c *c01UnprivCase) error {
+	jail := filepath.Join(env.Scratch, "jail")
+	for _, d := range []string{"src", "dst"} {
+		if err := os.MkdirAll(filepath.Join(jail, d), 0o755); err != nil {
+			return h.Infra(err)
+		}
+	}
+	if err := h.Materialise(c.Src, filepath.Join(jail, "src")); err != nil {
+		return h.Infra(err)
+	}
+	if c.Dst != nil {
+		if err := h.Materialise(c.Dst, filepath.Join(jail, "dst")); err != nil {
+			return h.Infra(err)
+		}
+	}
+	for _, d := range []string{"src", "dst"} {
+		if err := os.Chown(filepath.Join(jail, d), 1000, 1000); err != nil {
+			return h.Infra(err)
+		}
+	}
+	os.Chmod(jail, 0o755)
+	os.Chmod(env.Scratch, 0o755)
+	var snaps []h.Snap
+	for round := 0; round < 2; round++ {
+		var res c01JailResult
+		if err := runJailed(jail, "sync", 1000, c01JailArg{Capacity: c.Capacity}, &res); err != nil {
+			return h.Infra(err)
+		}
+		if res.Stuck || res.SendErr != "" || res.RecvErr != "" {
+			env.Class("rejected")
+			return nil
+		}
+		sn, err := h.Snapshot(filepath.Join(jail, "dst"))
+		if err != nil {
+			return h.Infra(err)
+		}
+		snaps = append(snaps, sn)
+	}
+	env.Class("unprivileged-resync")
+	for _, n := range c.Src.Nodes {
+		if n.Kind == h.KFile && (n.Perm&0o6000 != 0 || n.Perm&0o200 == 0) && n.Size > 0 {
+			env.NonTrivial()
+		}
+	}
+	for p, a := range snaps[0] {
+		b := snaps[1][p]
+		if b == nil {
+			return fmt.Errorf("unprivileged re-sync of an unchanged source: %q disappeared", p)
+		}
+		if a.Ino != b.Ino || (a.Kind != h.KDir && a.Mtime != b.Mtime) || a.Perm != b.Perm {
+			return fmt.Errorf("unprivileged re-sync of an unchanged source rewrote %q (inode %d -> %d, mode %o -> %o, mtime %d -> %d)", p, a.Ino, b.Ino, a.Perm, b.Perm, a.Mtime, b.Mtime)
+		}
+	}
+	return nil
 }
 
 var _ = sort.Strings
